@@ -397,7 +397,9 @@ def catalog_part(res, acc, rng, quick, rp):
         projects = [("fixture:" + os.path.relpath(f, C.REPO), project_of(f)) for f in S.fixture_files()]
         projects += [("tags:" + cls, [("a.jst", d)]) for cls, d in tag_documents(rng, quick)]
     outs = C.run_sharded("harness", "fn", [P.run_line("out=json", pj) for _, pj in projects])
-    trees = C.run_sharded("harness", "fn", [P.run_line("stage=expand", pj) for _, pj in projects])
+    # the generated tag documents have no MACRO / PASTE / INCLUDE: what they SAY is the forest of the first resolution (scan
+    # stage); a second resolution that moves a Tags directive elsewhere must not move the expectation with it
+    trees = C.run_sharded("harness", "fn", [P.run_line("stage=scan" if o_.startswith("tags:") else "stage=expand", pj) for o_, pj in projects])
     res.count(len(projects))
     dist = {"projects": len(projects), "accepted": 0, "interactions": 0, "with_own_or_url_Tags": 0, "automatic": 0,
             "declared_tags": 0, "captured_by_declared_tag": 0, "tags_directives": 0, "tags_directives_no_method_inherits": 0,
